@@ -20,10 +20,17 @@ func main() {
 	input := flag.String("input", "", "replay: run only the input lines of this file")
 	list := flag.Bool("list", false, "list families")
 	dumpDict := flag.String("dump-brotli-dict", "", "write the static dictionary of /repo/brotli to this file and exit")
-	probe := flag.String("probe", "", "run a one-off probe (cap: more than 2^24 commands in a single-type meta-block) and exit")
+	probe := flag.String("probe", "", "run a one-off probe (cap | capmid: more than 2^24 commands in a single-type meta-block) and exit")
 	flag.Parse()
 	if *probe == "cap" {
 		probeCap()
+		return
+	}
+	if *probe == "capmid" { // the count used up well before the end of the input (watchdogs: libbrotlidec does not return)
+		probeCapDsnet(0, 1<<24-100, 1000)
+		probeCapLib(1, 1<<24, 0)
+		probeCapLib(0, 1<<24-100, 1000)
+		probeCapLib(0, 1<<24-100000, 200000)
 		return
 	}
 	if *dumpDict != "" {
